@@ -762,6 +762,8 @@ def run_schedule(case):
 # ---------------------------------------------------------------------------
 
 KS = [0.0, 0.25, 0.5, 1.0, 1.0, 1.5, 2.0, 2.3, 3.0, 0.37]
+# split options that never truncate (open chains): documented tensor_split methods / cut-off modes with cutoff 0
+SPLITS = ["svd", "svd", "svd", "eig", "qr", "abs", "rsum2", "renorm", "maxbond"]
 
 
 @st.composite
@@ -811,6 +813,7 @@ def s_history(draw, tier, Ls, cyclic, imag=(False,), orders=(1, 2, 4), max_ops=4
         "mode": mode, "tol_order": draw(st.sampled_from(orders)),
         "dt": draw(st.sampled_from([0.1, 0.05, 0.13])), "t0": draw(st.sampled_from([0.0, 0.0, -0.7, 0.35])),
         "imag": draw(st.sampled_from(imag)), "kmax": kmax,
+        "split": draw(st.sampled_from(SPLITS)), "pass_array": draw(st.booleans()),
         "ops": draw(s_ops(max_ops, orders, allow_step and mode == "dt", no_zero=clean and mode != "dt")),
     }
 
@@ -867,32 +870,60 @@ class Hist:
         self.case = case
         spec = case["ham"]
         self.L, self.d, self.cyc = spec["L"], spec["d"], spec["cyclic"]
-        self.ham, self.ref = build_ham1d(spec, allow_dup=True)
+        H2, H1, self.ref = ham1d_inputs(spec, allow_dup=True)
+        # "H : LocalHam1D or array_like": a bare two-site array may be handed to TEBD itself
+        self.as_array = bool(case.get("pass_array")) and isinstance(H2, np.ndarray) and H1 is None
+        self.ham = None if self.as_array else Q.LocalHam1D(self.L, H2=H2, H1=H1, cyclic=self.cyc)
         self.imag = bool(case["imag"])
         self.info = dict(cyclic=self.cyc, imag=self.imag, odd=bool(self.L % 2), bsym=bool(self.ref["bsym"]))
+        psi0 = build_state(case, self.L, self.d, self.cyc)
+        self.psi0 = mps_dense(psi0, self.L)
+        self.n0 = float(np.linalg.norm(self.psi0))
+        self.t0 = float(case["t0"])
+        self.mode = case["mode"]
+        self.tol_order = int(case["tol_order"])
+        # mean Frobenius norm of the local terms: from the supplied arrays when there are no single-site terms to share
+        if self.as_array:
+            hn0 = float(np.linalg.norm(H2))
+        else:
+            hn0 = float(np.mean([np.linalg.norm(np.asarray(v)) for v in self.ham.terms.values()]))
+        # base step scaled to the coupling strength (dt0 * mean term norm = 0.05 .. 0.13)
+        self.dt0 = round_sig(float(case["dt"]) / max(hn0, 1e-3), 3)
+        kw = {}
+        if self.mode == "dt":
+            kw["dt"] = self.dt0
+        elif self.mode == "tol":
+            # the documented step formula then gives dt0 / k**(1/order) for a span of k * dt0
+            self.tol0 = round_sig(self.dt0 ** (self.tol_order + 1) * hn0, 6)
+            kw["tol"] = self.tol0
+        so = {"cutoff": 1e-13 if self.cyc else 0.0}
+        self.tol_state = TOL_STATE_CYC if self.cyc else TOL_STATE
+        self.tol_norm = NORM_TOL
+        self.split = "svd"
+        if not self.cyc:
+            self.split = split = case.get("split", "svd")
+            if split == "eig":
+                so["method"] = "eig"  # singular values from an eigen-decomposition: half the digits
+                self.tol_state, self.tol_norm = 1e-6, 1e-8
+            elif split == "qr":
+                so["method"] = "qr"
+            elif split in ("abs", "rsum2"):
+                so["cutoff_mode"] = split
+            elif split == "renorm":
+                so["renorm"] = True
+            elif split == "maxbond":
+                so["max_bond"] = self.d ** (self.L // 2)  # the largest Schmidt rank an open chain can have
+        self.tebd = Q.TEBD(psi0, H2 if self.as_array else self.ham, t0=self.t0, imag=self.imag, progbar=False,
+                           split_opts=so, **kw)
+        del H2, H1
+        if self.as_array:
+            self.ham = self.tebd.H
         e, self.Hd, self.mag = check_terms_sum(self.ham.terms, self.ref, dict(cls="LocalHam1D", cyclic=self.cyc))
         self.terms = {k: np.array(v, dtype=np.complex128) for k, v in self.ham.terms.items()}
         self.hn = float(np.mean([np.linalg.norm(v) for v in self.terms.values()]))
         self.dl = DenseLayers([self.d] * self.L, self.terms, chain_layers(self.L, self.cyc))
         # odd periodic chains have no symmetric splitting: only book-keeping is required there
         self.exact_product = not (self.cyc and self.L % 2 == 1)
-        psi0 = build_state(case, self.L, self.d, self.cyc)
-        self.psi0 = mps_dense(psi0, self.L)
-        self.n0 = float(np.linalg.norm(self.psi0))
-        # base step scaled to the coupling strength (dt0 * mean term norm = 0.05 .. 0.13)
-        self.dt0 = round_sig(float(case["dt"]) / max(self.hn, 1e-3), 3)
-        self.t0 = float(case["t0"])
-        self.mode = case["mode"]
-        self.tol_order = int(case["tol_order"])
-        kw = {}
-        if self.mode == "dt":
-            kw["dt"] = self.dt0
-        elif self.mode == "tol":
-            # the documented step formula then gives dt0 / k**(1/order) for a span of k * dt0
-            self.tol0 = round_sig(self.dt0 ** (self.tol_order + 1) * self.hn, 6)
-            kw["tol"] = self.tol0
-        self.tebd = Q.TEBD(psi0, self.ham, t0=self.t0, imag=self.imag, progbar=False,
-                           split_opts={"cutoff": 1e-13 if self.cyc else 0.0}, **kw)
         self.t = self.t0
         self.psi = self.psi0.copy()
         self.cur_dt = self.dt0 if self.mode == "dt" else None  # the step an argument-less step() takes
@@ -903,7 +934,6 @@ class Hist:
         self.repeat = False
         self.maxerr = 0.0
         self.cls = set()
-        self.tol_state = TOL_STATE_CYC if self.cyc else TOL_STATE
         self.check("init")
 
     # -- model -------------------------------------------------------------
@@ -946,9 +976,9 @@ class Hist:
                 raise Violation("state", err=e, **info)
             self.maxerr = max(self.maxerr, e)
         if normalised:
-            if not abs(nrm - 1.0) <= NORM_TOL:
+            if not abs(nrm - 1.0) <= self.tol_norm:
                 raise Violation("imag-norm", got=nrm, **info)
-        elif not abs(nrm - self.n0) <= NORM_TOL * self.n0:
+        elif not abs(nrm - self.n0) <= self.tol_norm * self.n0:
             raise Violation("norm", got=nrm, want=self.n0, **info)
 
     def check(self, what, order=None):
@@ -1132,7 +1162,12 @@ class Hist:
             cls.append("real-state")
         if not self.exact_product:
             cls.append("bookkeeping-only")
-        return {"nt": bool(nt), "cls": cls, "err": self.maxerr}
+        if not self.cyc:
+            cls.append("split=" + self.split)
+        if self.as_array:
+            cls.append("H-as-array")
+        # the eig route is judged at 1e-6: report its error on the scale of the other routes' tolerance
+        return {"nt": bool(nt), "cls": cls, "err": self.maxerr * (TOL_STATE / self.tol_state)}
 
 
 def run_history(case):
@@ -1354,36 +1389,149 @@ def run_mpo_prop(case):
     return {"nt": L >= 3 and site_dependent(ref), "cls": ham_classes(spec, ref) + ["order=%d" % order], "err": max(e, e2)}
 
 
+# ---------------------------------------------------------------------------
+# arbitrary geometry TEBD: a sweep is the documented ordered product of local exponentials
+# ---------------------------------------------------------------------------
+
+@st.composite
+def s_tebdgen(draw, tier):
+    n = draw(st.integers(2, 5))
+    edges = [(draw(st.integers(0, i - 1)), i) for i in range(1, n)]
+    for _ in range(draw(st.integers(0, 2))):
+        a, b = draw(st.integers(0, n - 1)), draw(st.integers(0, n - 1))
+        if a != b and (a, b) not in edges and (b, a) not in edges:
+            edges.append((a, b))
+    edges = [list(e) if draw(st.booleans()) else [e[1], e[0]] for e in edges]
+    reflect = draw(st.booleans())
+    return {"n": n, "edges": edges, "nodes": draw(st.sampled_from(NODE_KINDS)), "seed": draw(A.seeds),
+            "dtype": draw(st.sampled_from(["complex128", "float64"])), "dup": -1,
+            "h1": draw(st.sampled_from(H1_MODES)), "h1sites": draw(st.lists(st.integers(0, 1), min_size=NMAX, max_size=NMAX)),
+            "ordering": draw(st.sampled_from(["sort", "explicit", "explicit", "random"])),
+            # an explicit ordering may name a pair in either direction (a fifth of the cases: finding C11-b)
+            "rev_pairs": draw(st.sampled_from([False, False, False, False, True])),
+            "perm_seed": draw(st.integers(0, 10 ** 6)), "reflect": reflect,
+            "steps": 1 if reflect else draw(st.integers(1, 2)),
+            "taus": draw(st.lists(st.sampled_from([0.1, 0.05, 0.2]), min_size=1, max_size=2)),
+            "tau_form": draw(st.sampled_from(["ctor", "evolve", "list"])), "bond": draw(st.sampled_from([1, 2])),
+            "two_calls": draw(st.booleans())}
+
+
+def run_tebdgen(case):
+    import random
+
+    Q = qtn()
+    random.seed(case["seed"])  # get_auto_ordering('random') shuffles with the global `random` module
+    d, n = 2, case["n"]
+    H2, H1, ref = hamgen_inputs(case, d)
+    names, pos = ref["names"], ref["pos"]
+    ham = Q.LocalHamGen(H2=H2, H1=H1)
+    del H2, H1
+    info = dict(cls="TEBDGen", reflect=bool(case["reflect"]))
+    e, Hd, mag = check_terms_sum(ham.terms, ref, info, names=names)
+    terms = {k: np.array(v, dtype=np.complex128) for k, v in ham.terms.items()}
+    named_edges = [(names[a], names[b]) for a, b in case["edges"]]
+    psi0 = Q.TN_from_edges_rand(named_edges, D=case["bond"], phys_dim=d, seed=case["seed"] % (2 ** 31), dtype=case["dtype"])
+    p0 = np.asarray(tn_value(psi0, [psi0.site_ind(s) for s in names]), dtype=np.complex128).reshape(-1)
+    rev_pairs = False
+    if case["ordering"] == "explicit":
+        rng = np.random.default_rng(case["perm_seed"])
+        keys = sorted(terms)
+        ordering = [keys[i] for i in rng.permutation(len(keys))]
+        if case["rev_pairs"]:
+            flips = rng.integers(0, 2, size=len(ordering))
+            flips[int(rng.integers(len(ordering)))] = 1
+            ordering = [(b, a) if f else (a, b) for (a, b), f in zip(ordering, flips)]
+            rev_pairs = True
+        arg = list(ordering)
+    else:
+        arg = case["ordering"]
+    taus = [float(x) for x in case["taus"]]
+    steps = int(case["steps"])
+    kw = {}
+    if case["tau_form"] == "ctor":
+        kw["tau"] = taus[0]
+    tebd = Q.TEBDGen(psi0, ham, D=4096, cutoff=0.0, ordering=arg, second_order_reflect=bool(case["reflect"]),
+                     compute_energy_final=False, progbar=False, **kw)
+    seq = [tuple(w) for w in tebd.ordering]
+    if sorted(map(repr, (tuple(sorted(w)) for w in seq))) != sorted(map(repr, terms)):
+        raise Violation("ordering-not-a-permutation", ordering=str(case["ordering"]), **info)
+    if case["ordering"] == "explicit" and seq != [tuple(w) for w in arg]:
+        raise Violation("ordering-not-kept", **info)
+    info["rev_pairs"] = rev_pairs
+    dims = ref["dims"]
+
+    def sweep(psi, tau):
+        full = seq + seq[::-1] if case["reflect"] else seq
+        f = 2.0 if case["reflect"] else 1.0
+        for a, b in full:
+            h = terms[(a, b)] if (a, b) in terms else flip2(terms[(b, a)], d)
+            psi = embed(expm_term(h, -tau / f), dims, [pos[a], pos[b]]) @ psi
+        return psi
+
+    ref_psi = p0.copy()
+    ncall = 2 if case["two_calls"] else 1
+    total = 0
+    err = 0.0
+    for c in range(ncall):
+        if case["tau_form"] == "ctor":
+            tebd.evolve(steps)
+            used = [taus[0]] * steps
+        elif case["tau_form"] == "evolve":
+            tebd.evolve(steps, tau=taus[c % len(taus)])
+            used = [taus[c % len(taus)]] * steps
+        else:
+            # a sequence gives one step size per sweep, the last one repeating
+            tebd.evolve(steps, tau=list(taus))
+            used = [taus[min(i, len(taus) - 1)] for i in range(steps)]
+        for tau in used:
+            ref_psi = sweep(ref_psi, tau)
+        total += steps
+        if tebd.n != total:
+            raise Violation("sweep-count", got=int(tebd.n), want=total, **info)
+        pt = tebd.state
+        got = np.asarray(tn_value(pt, [pt.site_ind(s) for s in names]), dtype=np.complex128).reshape(-1)
+        ee = rel_err(got, ref_psi, floor=float(np.linalg.norm(ref_psi)))
+        if not ee <= 1e-8:
+            raise Violation("state", err=ee, after="evolve", **info)
+        err = max(err, ee)
+    return {"nt": len(terms) >= 2 and (total >= 2 or case["reflect"]),
+            "cls": ["n=%d" % n, "nodes=" + case["nodes"], "ordering=" + case["ordering"], "reflect" if case["reflect"] else "plain",
+                    "tau=" + case["tau_form"], "h1=" + case["h1"], "sweeps=%d" % total] + (["rev-pairs"] if rev_pairs else []),
+            "err": max(e, err)}
+
+
 SUBCHECKS = [
-    SubCheck("ham1d_terms", run_ham1d_terms, s_ham1d_terms, examples=(150, 3000), shards=(1, 4),
+    SubCheck("ham1d_terms", run_ham1d_terms, s_ham1d_terms, examples=(200, 2000), shards=(1, 4),
              rule="LocalHam1D open/periodic: sum embed(terms) == supplied H (EXACT64), sorted keys, get_gate in both orientations, get_gate_expm == eigh exponential; nt: L>=3 and site dependent"),
-    SubCheck("hamgen_terms", run_hamgen, s_hamgen, examples=(150, 3000), shards=(1, 4), needs_deps=True,
+    SubCheck("hamgen_terms", run_hamgen, s_hamgen, examples=(200, 2000), shards=(1, 4), needs_deps=True,
              rule="LocalHamGen on connected graphs of 2-6 nodes (int/str/tuple names): sum of terms, gates, every auto ordering is a permutation into site-disjoint layers, get_trotter_gates product == product formula; nt: >=3 terms and >=2 layers"),
-    SubCheck("ham_nd_terms", run_ham_nd, s_ham_nd, examples=(100, 2000), shards=(1, 4),
+    SubCheck("ham_nd_terms", run_ham_nd, s_ham_nd, examples=(120, 1500), shards=(1, 4),
              rule="LocalHam2D/3D (default term, overrides, reversed keys, periodic directions of length>=3): sum of terms, gates; nt: >=3 terms and not the bare default"),
     SubCheck("trotter_schedule", run_schedule, enum=enum_schedule, exhaustive=True,
              rule="orders 1/2/4 x 0-6 layers: equals the docstring formula, fractions per layer sum to 1, palindromic, Suzuki order condition; unsupported orders raise"),
-    SubCheck("tebd_open_real", run_history, strat_hist(Ls=(2, 3, 4, 5, 6, 7), cyclic=False, imag=(False,)), examples=(120, 3000),
+    SubCheck("tebd_open_real", run_history, strat_hist(Ls=(2, 3, 4, 5, 6, 7), cyclic=False, imag=(False,)), examples=(150, 2000),
              shards=(2, 6), rule="open chain, cutoff 0, real time: after every call t == T (1e-12), dense state == product formula (EXACT64), norm preserved (1e-10); nt as RULE"),
-    SubCheck("tebd_open_imag", run_history, strat_hist(Ls=(2, 3, 4, 5, 6, 7), cyclic=False, imag=(True,)), examples=(100, 2500),
+    SubCheck("tebd_open_imag", run_history, strat_hist(Ls=(2, 3, 4, 5, 6, 7), cyclic=False, imag=(True,)), examples=(150, 1500),
              shards=(1, 4), rule="open chain, imaginary time: state == normalised product formula, norm == 1 (1e-10), t == T; nt as RULE"),
     SubCheck("tebd_cyclic_even", run_history,
              strat_hist(Ls=(4, 6), cyclic=True, imag=(False, True), max_ops=2, kmax=3.0, bonds=(1, 2),
                         bsym=(False, True), ds=(2,)),
-             examples=(60, 1500), shards=(1, 4),
+             examples=(80, 800), shards=(1, 4),
              rule="even periodic chain, cutoff 1e-13, <= 2.5 steps: state == product formula with the boundary bond in the odd layer (1e-8), t, norm; nt as RULE"),
     SubCheck("tebd_cyclic_odd", run_history,
              strat_hist(Ls=(3, 5), cyclic=True, imag=(False, True), max_ops=2, kmax=3.0, bonds=(1, 2),
                         bsym=(False, True), ds=(2,)),
-             examples=(40, 1000), shards=(1, 4),
+             examples=(50, 500), shards=(1, 4),
              rule="odd periodic chain: time book-keeping and norm only (no symmetric splitting exists); nt as RULE"),
-    SubCheck("conv_open", run_conv, strat_conv(Ls=(3, 4, 5, 6), cyclic=False), examples=(40, 800), shards=(1, 4),
+    SubCheck("conv_open", run_conv, strat_conv(Ls=(3, 4, 5, 6), cyclic=False), examples=(50, 500), shards=(1, 4),
              rule="open chain: error vs expm(-iHT) psi0 at 2/4/8 steps, fitted slope >= order - 0.35; nt: L>=3"),
-    SubCheck("conv_cyclic", run_conv, strat_conv(Ls=(3, 4, 5, 6), cyclic=True, bsym=(False, True, True, True), bonds=(1,)), examples=(40, 800),
+    SubCheck("conv_cyclic", run_conv, strat_conv(Ls=(3, 4, 5, 6), cyclic=True, bsym=(False, True, True, True), bonds=(1,)), examples=(50, 400),
              shards=(1, 4),
              rule="periodic chain: 1/2/4 steps (order 4: 1/2/3), slope >= order - 0.35 (even L), >= 0.5 (odd L); nt: all"),
-    SubCheck("gate_cache_history", run_cache, s_cache, examples=(120, 2500), shards=(1, 4),
+    SubCheck("gate_cache_history", run_cache, s_cache, examples=(150, 1500), shards=(1, 4),
              rule="sequence of get_gate / get_gate_expm / apply_to_arrays / unrelated Hamiltonians on one object built from temporaries: every answer == exponential of the current term; nt: >=2 exponentials"),
-    SubCheck("mpo_propagator", run_mpo_prop, s_mpo_prop, examples=(60, 1200), shards=(1, 4),
+    SubCheck("tebdgen_sweeps", run_tebdgen, s_tebdgen, examples=(100, 1000), shards=(1, 4), needs_deps=True,
+             rule="TEBDGen (no truncation: D=4096, cutoff 0) on connected graphs of 2-5 nodes: after evolve() the dense state == the ordered product of exp(-tau h) over the ordering in force (explicit / sort / random, optional reflection at tau/2), n counts sweeps; nt: >=2 terms and (>=2 sweeps or reflection)"),
+    SubCheck("mpo_propagator", run_mpo_prop, s_mpo_prop, examples=(60, 600), shards=(1, 4),
              rule="build_mpo_propagator_trotterized(x, order) dense == product formula matrix (even then odd bonds); nt: L>=3 site dependent"),
 ]
